@@ -149,7 +149,9 @@ def _cb(b):
     return "true" if b else "false"
 
 
-_CUSTOM = {"mul": "CMul", "aff": "CAff", "sq": "CSq"}
+# "mulk"/"affk"/"sqk": the same operations; the harness closures additionally keep a handle on every array they
+# return (C08) - no difference for the model
+_CUSTOM = {"mul": "CMul", "aff": "CAff", "sq": "CSq", "mulk": "CMul", "affk": "CAff", "sqk": "CSq"}
 _ACT = {"none": "ANone", "relu": "ARelu", "sigmoid": "ASigmoid", "softmax": "ASoftmax"}
 _COST = {"mse": "CMse", "ce": "CCrossEntropy"}
 
@@ -302,6 +304,10 @@ def parse_harness(text):
             order.append(name)
         elif line == "end":
             cur = None
+        elif line.startswith("k ") and cur is not None:
+            # handles kept by the custom closures: (changed, total); stripped off by check.py before comparing
+            t = line.split()
+            cur.append(("kept", int(t[1]), int(t[2])))
         elif line.startswith("o "):
             parts = line.split(" | ")
             items = []
